@@ -7,6 +7,7 @@ import Psa.Model.Setters
 import Psa.Driver.ClaimsIO
 import Psa.Driver.ErrIO
 import Psa.Driver.HistIO
+import Psa.Driver.CodecIO
 namespace Psa.Driver
 open Psa
 
@@ -63,6 +64,8 @@ def runLine (l : String) : String :=
       | "obs" => opObs args
       | "filter" => opFilter args
       | "hist" => opHist args
+      | "decv" => opDecv args
+      | "enc" => opEnc args
       | _ => "bad-op"
     caseNo ++ " " ++ r
   | _ => "bad-line"
